@@ -6,7 +6,7 @@
    Sem/OptFlagsProofs.v and Sem/OptProofs.v.
    The outcome relation rrel, the first-order test fo and the one-step unfolding of Ref.eval
    (ref_step, r_app, r_list, ...) are those of the C01 package (Sem/Sim.v). *)
-From P2 Require Import Base.Prelude Sem.Num Sem.Syntax Sem.Ops Sem.Lib Sem.Ref Sem.Gen Sem.Sim Sem.Opt.
+From P2 Require Import Base.Prelude Sem.Num Sem.Syntax Sem.Ops Sem.Lib Sem.Ref Sem.Gen Sem.Sim Sem.Trace Sem.Opt.
 
 (* ---------- outcomes ---------- *)
 
@@ -167,7 +167,10 @@ Inductive arel : list (name * value) -> ast -> ast -> Prop :=
 | ar_method s recv recv' mname args args' :
     arel s recv recv' -> Forall2 (arel s) args args' ->
     arel s (AMethod recv mname args) (AMethod recv' mname args')
-| ar_step s a t t' : arel s a t -> closed t -> seq known t t' -> arel s a t'
+| ar_step s a t t' :
+    (* a closed redex replaced by a term with the same meaning, also in the trace semantics under
+       every host oracle *)
+    arel s a t -> closed t -> seq known t t' -> (forall host, tseq known host t t') -> arel s a t'
 | ar_gstep s a t v :
     (* a closed redex replaced by the value that generated code computed for it at Generate time: the
        reference semantics gives a value that the C01 relation relates to it (the generator's closures
